@@ -46,6 +46,7 @@ type thread struct {
 	on      interface{} // *Mutex or *RWMutex it waits for
 	fn      func()
 	Panic   string
+	timer   *Timer // a timer callback that has not fired yet (enabled once the timer is due)
 }
 
 // Point is one scheduling decision with more than one enabled thread.
@@ -66,6 +67,7 @@ type Run struct {
 	Deadlock bool
 	Blocked  []string // description of blocked threads on deadlock
 	Horizon  bool     // point budget exhausted
+	Timers   int      // timers made by AfterFunc inside the run
 	Stuck    bool     // a thread blocked outside the modelled synchronisation (also sets Deadlock)
 	prog     atomic.Int64
 	stuck    atomic.Bool
@@ -156,6 +158,14 @@ func Advance(d time.Duration) {
 	}
 }
 
+// VOffset is the virtual time that has passed inside the controlled run in progress.
+func VOffset() time.Duration {
+	if r := active.Load(); r != nil {
+		return r.voffset
+	}
+	return 0
+}
+
 // Until and Since replace time.Until and time.Since in instrumented files.
 func Until(t time.Time) time.Duration { return t.Sub(Now()) }
 func Since(t time.Time) time.Duration { return Now().Sub(t) }
@@ -228,6 +238,10 @@ func (r *Run) enabled(t *thread) bool {
 		return false
 	}
 	if !t.started {
+		if t.timer != nil {
+			// a timer callback: may start at any moment from when the timer is due (virtual time)
+			return t.timer.armed && t.timer.thr == t && r.voffset >= t.timer.due
+		}
 		return true
 	}
 	switch t.kind {
@@ -275,6 +289,12 @@ func (r *Run) Start() {
 		if len(en) == 0 {
 			alive := false
 			for _, t := range r.threads {
+				if !t.done && !t.started && t.timer != nil {
+					// a timer that is stopped, superseded or not due when everything else is over
+					// never fires within this execution
+					t.done = true
+					continue
+				}
 				if !t.done {
 					alive = true
 					r.Blocked = append(r.Blocked, fmt.Sprintf("%s(op %d)", t.name, t.kind))
@@ -445,6 +465,69 @@ func Go(f func()) {
 		return
 	}
 	r.Spawn(fmt.Sprintf("go#%d", len(r.threads)), f)
+}
+
+// Timer replaces time.Timer for timers made by AfterFunc (the instrumenter rewrites both).
+// Inside a controlled run the callback is a thread of the run that becomes enabled when the
+// virtual clock reaches the deadline; when it actually starts is a scheduling choice like
+// any other. As with the runtime's timers, Reset and Stop cannot take back a callback that
+// has already started.
+type Timer struct {
+	real  *time.Timer
+	run   *Run
+	fn    func()
+	due   time.Duration // virtual time of the run (offset) at which the timer is due
+	armed bool
+	thr   *thread // the callback thread of the current arming
+}
+
+// AfterFunc replaces time.AfterFunc.
+func AfterFunc(d time.Duration, f func()) *Timer {
+	r := active.Load()
+	if r == nil || r.aborting {
+		return &Timer{real: time.AfterFunc(d, f)}
+	}
+	t := &Timer{run: r, fn: f}
+	t.arm(d)
+	r.Timers++
+	return t
+}
+
+func (t *Timer) arm(d time.Duration) {
+	r := t.run
+	t.due, t.armed = r.voffset+d, true
+	if t.thr != nil && !t.thr.started && !t.thr.done {
+		return // the pending callback thread serves the new deadline
+	}
+	id := r.Spawn(fmt.Sprintf("timer#%d", len(r.threads)), func() {
+		t.armed = false
+		t.fn()
+	})
+	t.thr = r.threads[id]
+	t.thr.timer = t
+}
+
+// Reset re-arms the timer; it reports whether the timer was still pending.
+func (t *Timer) Reset(d time.Duration) bool {
+	if t.real != nil {
+		return t.real.Reset(d)
+	}
+	if r := active.Load(); r != t.run || r.aborting {
+		return false // the run that made the timer is over
+	}
+	was := t.armed
+	t.arm(d)
+	return was
+}
+
+// Stop prevents the timer from firing; it reports whether the timer was still pending.
+func (t *Timer) Stop() bool {
+	if t.real != nil {
+		return t.real.Stop()
+	}
+	was := t.armed
+	t.armed = false
+	return was
 }
 
 // Mutex replaces sync.Mutex.
